@@ -150,6 +150,11 @@ bool Module::start()
     for (const auto &item : children_) {
         if (!item.module_ptr->start() && item.required) {
             LogErr("required module `%s' start() fail", item.module_ptr->name().c_str());
+            //! roll back: state_ stays kInited, so a later stop() would skip this module;
+            //! stop, in reverse order, the children already started and then undo our own onStart()
+            for (auto iter = children_.rbegin(); iter != children_.rend(); ++iter)
+                iter->module_ptr->stop();
+            onStop();
             return false;
         }
     }
